@@ -22,6 +22,23 @@ fn zero_call<A: Copy + std::fmt::Debug, M: Bytes<A>>(m: &M, entry: u64, addr: A,
 where
     M::E: std::fmt::Debug,
 {
+    for variant in 0..4u64 {
+        zero_call_v(m, entry, addr, valid, variant, what)?;
+        if entry < 6 {
+            break;
+        }
+    }
+    Ok(())
+}
+
+/// `variant` selects the stream object for the stream forms: sources {non-empty &[u8], empty
+/// &[u8], Cursor at its end, empty File}; sinks {Vec, full (zero-capacity) &mut [u8], &mut [u8]
+/// with room, Cursor<&mut [u8]> at its end}.
+fn zero_call_v<A: Copy + std::fmt::Debug, M: Bytes<A>>(m: &M, entry: u64, addr: A, valid: bool, variant: u64, what: &str) -> Result<(), String>
+where
+    M::E: std::fmt::Debug,
+{
+    let what = &format!("{} [stream variant {}]", what, variant);
     let r: Result<usize, M::E> = match entry {
         0 => m.write(&[], addr),
         1 => m.read(&mut [], addr),
@@ -29,31 +46,73 @@ where
         3 => m.read_slice(&mut [], addr).map(|_| 0),
         4 => m.write_obj::<[u8; 0]>([], addr).map(|_| 0),
         5 => m.read_obj::<[u64; 0]>(addr).map(|_| 0),
-        6 => {
+        6 | 7 => {
             let data = [1u8, 2, 3];
-            let mut src: &[u8] = &data;
-            let r = m.read_volatile_from(addr, &mut src, 0);
-            if src.len() != 3 {
-                return Err(format!("{}: a zero-count transfer consumed {} source bytes", what, 3 - src.len()));
+            let exact = entry == 7;
+            match variant {
+                0 | 1 => {
+                    let mut src: &[u8] = if variant == 0 { &data } else { &[] };
+                    let before = src.len();
+                    let r = if exact { m.read_exact_volatile_from(addr, &mut src, 0).map(|_| 0) } else { m.read_volatile_from(addr, &mut src, 0) };
+                    if src.len() != before {
+                        return Err(format!("{}: a zero-count transfer consumed {} source bytes", what, before - src.len()));
+                    }
+                    r
+                }
+                2 => {
+                    let mut c = std::io::Cursor::new(&data[..]);
+                    c.set_position(3);
+                    let r = if exact { m.read_exact_volatile_from(addr, &mut c, 0).map(|_| 0) } else { m.read_volatile_from(addr, &mut c, 0) };
+                    if c.position() != 3 {
+                        return Err(format!("{}: a zero-count transfer moved the cursor to {}", what, c.position()));
+                    }
+                    r
+                }
+                _ => {
+                    let mut f = memfd(0);
+                    if exact { m.read_exact_volatile_from(addr, &mut f, 0).map(|_| 0) } else { m.read_volatile_from(addr, &mut f, 0) }
+                }
             }
-            r
-        }
-        7 => {
-            let data = [1u8, 2, 3];
-            let mut src: &[u8] = &data;
-            m.read_exact_volatile_from(addr, &mut src, 0).map(|_| 0)
-        }
-        8 => {
-            let mut v: Vec<u8> = Vec::new();
-            let r = m.write_volatile_to(addr, &mut v, 0);
-            if !v.is_empty() {
-                return Err(format!("{}: a zero-count transfer delivered {} bytes", what, v.len()));
-            }
-            r
         }
         _ => {
-            let mut v: Vec<u8> = Vec::new();
-            m.write_all_volatile_to(addr, &mut v, 0).map(|_| 0)
+            let all = entry == 9;
+            match variant {
+                0 => {
+                    let mut v: Vec<u8> = Vec::new();
+                    let r = if all { m.write_all_volatile_to(addr, &mut v, 0).map(|_| 0) } else { m.write_volatile_to(addr, &mut v, 0) };
+                    if !v.is_empty() {
+                        return Err(format!("{}: a zero-count transfer delivered {} bytes", what, v.len()));
+                    }
+                    r
+                }
+                1 | 2 => {
+                    // a sink that is already full (no capacity left) / one with room
+                    let mut store = [0x11u8; 4];
+                    let cap = if variant == 1 { 0 } else { 4 };
+                    let r;
+                    {
+                        let mut s: &mut [u8] = &mut store[..cap];
+                        r = if all { m.write_all_volatile_to(addr, &mut s, 0).map(|_| 0) } else { m.write_volatile_to(addr, &mut s, 0) };
+                        if s.len() != cap {
+                            return Err(format!("{}: a zero-count transfer advanced the sink by {}", what, cap - s.len()));
+                        }
+                    }
+                    if store != [0x11u8; 4] {
+                        return Err(format!("{}: a zero-count transfer wrote into the sink", what));
+                    }
+                    r
+                }
+                _ => {
+                    let mut store = [0x11u8; 4];
+                    let mut c = std::io::Cursor::new(&mut store[..]);
+                    c.set_position(4);
+                    let r = if all { m.write_all_volatile_to(addr, &mut c, 0).map(|_| 0) } else { m.write_volatile_to(addr, &mut c, 0) };
+                    if c.position() != 4 {
+                        return Err(format!("{}: a zero-count transfer moved the cursor", what));
+                    }
+                    r
+                }
+            }
         }
     };
     let stream = entry >= 6;
